@@ -61,7 +61,22 @@ func ImportTwin(w *worlds.World, h History, menu []int, st *ImportStats) []Viola
 	// (0) the export is complete with respect to the state's own accessors: nonce, lock and
 	// every balance of every account the world knows (an account that the export drops is
 	// missing on both sides of the round trip, so the re-export comparison cannot see it)
-	for _, v := range exportVsAccessors(w, n, &base.Final().Export) {
+	var created []types.Address // wallets created by the transactions of the last block (tag tx.created_multisig)
+	for _, st := range base.Steps {
+		for _, x := range st.Txs {
+			if x.Resp.Code != 0 {
+				continue
+			}
+			for _, e := range x.Resp.Events {
+				for _, a := range e.Attributes {
+					if string(a.Key) == "tx.created_multisig" {
+						created = append(created, types.HexToAddress("Mx"+string(a.Value)))
+					}
+				}
+			}
+		}
+	}
+	for _, v := range exportVsAccessors(w, n, &base.Final().Export, created...) {
 		mk(v[0], fmt.Sprintf("export at height %d: %s", n.Height, v[1]), h)
 	}
 	var gen *worlds.World
